@@ -295,6 +295,7 @@ func c17Copy(c *Ctx, rel string) {
 				}
 				// both difference tests
 				var xEdges, yEdges []ana.Edge
+				unreduced := 0
 				for _, ce := range b.CondEdges() {
 					bd2, ok := ana.Match("bin<==>("+bigSign+"($d), 0)", ce.Lit)
 					if !ok {
@@ -313,6 +314,21 @@ func c17Copy(c *Ctx, rel string) {
 					}
 					mentions := func(t *ana.Term, p int) bool { return t.Contains(func(s *ana.Term) bool { return s.IsParam(p) }) }
 					a, bb := fb["$a"], fb["$b"]
+					// "== 0" decides "≡ 0 (mod p)" only for a value in [0, p): the difference is reduced itself (its last
+					// mutation is Mod p), or both operands are and the difference is fixed up by a conditional + p
+					const pT = "load(faddr<P>(alt(field<CurveParams>(p0), load(faddr<CurveParams>(p0)))))"
+					modLast := func(t *ana.Term) bool {
+						return t.Is("obj") && len(t.Args) > 1 && matches("call<(*math/big.Int).Mod>(self, self, "+pT+")", t.Args[len(t.Args)-1])
+					}
+					fixedUp := false
+					for _, ev := range dT.Args[2:] {
+						if matches("maybe(call<(*math/big.Int).Add>(self, self, "+pT+"))", ev) {
+							fixedUp = true
+						}
+					}
+					if !(modLast(dT) || modLast(a) && modLast(bb) && fixedUp) {
+						unreduced++
+					}
 					if (mentions(a, 4) && mentions(bb, 1) || mentions(a, 1) && mentions(bb, 4)) && !mentions(a, 2) && !mentions(a, 5) {
 						xEdges = append(xEdges, ce.Edge)
 					}
@@ -320,6 +336,7 @@ func c17Copy(c *Ctx, rel string) {
 						yEdges = append(yEdges, ce.Edge)
 					}
 				}
+				r.Check(unreduced == 0, K("C17.exceptional-add.differences-reduced"), c.ipos(e.Instr), "the differences tested against zero lie in [0, p): reduced themselves, or differences of reduced values with the conditional +p (%d are not: an unreduced difference of equal points is a non-zero multiple of p, the generic formula then yields Z3 = 0)", unreduced)
 				gotD = len(xEdges) > 0 && len(yEdges) > 0 && exitMustPass(f, e, xEdges) && exitMustPass(f, e, yEdges)
 				r.Check(gotD, K("C17.exceptional-add.doubling"), c.ipos(e.Instr), "doubling is returned only when the x-difference (u2−u1) AND the y-difference (s2−s1) are both zero (x tests %d, y tests %d); with the x test alone P+(−P) would be doubled", len(xEdges), len(yEdges))
 			}
